@@ -45,6 +45,12 @@ def make_fake_lmod(home: Path, out_file: Path, argv_file: Path) -> Path:
     )
 
 
+def make_dyn_lmod(home: Path, mods_dir: Path, argv_file: Path) -> Path:
+    """$MODULESHOME/libexec/lmod that computes prepends from the environment it runs in (module specs under mods_dir)."""
+    tmpl = (CORPUS / "fakelmod" / "libexec" / "lmod_dyn.in").read_text()
+    return write_exec(home / "libexec" / "lmod", tmpl.replace("@ARGV@", str(argv_file)).replace("@MODS@", str(mods_dir)))
+
+
 def make_dumper(path: Path, argv_file: Path, env_file: Path) -> Path:
     """The executed 'command': records its argv and its environment (NUL separated), prints nothing."""
     env = which_abs("env")
